@@ -92,12 +92,32 @@ Theorem C08_registry_fastpath_refuted :
 Proof. exact registry_fastpath_refuted. Qed.
 Print Assumptions C08_registry_fastpath_refuted.
 
-(* byteslicepool: for EVERY initial memory content, every schedule of Get / append / Put by any
-   number of callers and every choice of sync.Pool, the bytes a caller sees through its slice
-   are exactly the bytes it appended itself since its Get. *)
+(* byteslicepool (Get / append / Resize / Put): for EVERY initial memory content, every schedule
+   by any number of callers in which no caller SHRINKS its slice with Resize, and every choice of
+   sync.Pool, the bytes a caller sees through its slice are exactly the bytes it appended itself
+   since its Get, with zeroes where it grew the slice with Resize. *)
 Theorem C08_byteslicepool_no_carry : forall mincap, no_carry mincap.
 Proof. exact byteslicepool_no_carry. Qed.
 Print Assumptions C08_byteslicepool_no_carry.
+
+(* Without that restriction it is false of the tree as it is: Get clears a recycled slice only up
+   to the length it was Put with, so a caller that appended [7;7;7], shrank to length 1 and Put
+   the slice leaves 7;7 behind, and the next caller's Get + Resize(3) sees [0;7;7]. *)
+Theorem C08_byteslicepool_shrink_put_refuted :
+  exists mincap es s, brun mincap (binit (fun _ _ => 0%N)) es = Some s /\
+                      visible s 1 = [0; 7; 7]%N /\ appended 1 es [] = [0; 0; 0]%N.
+Proof. exact byteslicepool_shrink_put_refuted. Qed.
+Print Assumptions C08_byteslicepool_shrink_put_refuted.
+
+(* A buffer released twice (an explicit Put on an error path of a function that also has the
+   deferred Put - not what the tree does; such programs fail the discipline check) makes two LATER
+   operations hold the same buffer at the same time. *)
+Theorem C08_double_put_refuted :
+  exists (progs : opid -> list instr) es s b,
+    run (init_state progs) es = Some s /\
+    cur (ops s 1) = Some b /\ cur (ops s 2) = Some b.
+Proof. exact double_put_refuted. Qed.
+Print Assumptions C08_double_put_refuted.
 
 (* Default cron parser: the package variable is never written and every ParseStandard result is
    the pure parse of the caller's own argument. *)
@@ -117,6 +137,8 @@ Theorem C08_oracle_sound : forall c,
   | CPool _ data got_len seen => got_len = 0%Z /\ seen = data
   | CReg obs => reg_consistent obs
   | CRegApply obs reached => reg_consistent obs /\ all_reached reached
+  | CNestF faults _ _ obs => all_same (faults ++ obs)
+  | CPoolSeq ops seen => pool_seq_ok [] ops seen
   end.
 Proof. exact oracle_sound. Qed.
 Print Assumptions C08_oracle_sound.
